@@ -409,8 +409,9 @@ func (n numDatum) Literal(context string) string {
 		return "-Infinity"
 	}
 
-	// ... then the easy ones.
-	return fmt.Sprintf("%v", n.num)
+	// ... then the easy ones.  XPath never uses exponent notation, which
+	// %v switches to for very small and very large values.
+	return strconv.FormatFloat(n.num, 'f', -1, 64)
 }
 
 func (n numDatum) Nodeset(context string) []xutils.XpathNode {
